@@ -245,5 +245,139 @@ func TestGovcBoundedC03Mirror(t *testing.T) {
 			fmt.Printf("GOVC-FAIL name=c03-rejection %s, accepted: %s\n", f.what, f.text)
 		}
 	}
-	fmt.Printf("GOVC-BOUNDED name=c03-ast-mirrors-statements bound=%d_generated_module_sets_(every_node_of_every_module_and_submodule_walked,_seed_%d)_+_%d_single-fault_texts evaluations=%d distinct=%d\n", schemas, seed, len(faults), evals, nodes)
+	// every keyword under every statement that has no place for it: starting from the module
+	// node type, the node types are explored through their tagged fields; for each type P (reached
+	// by a chain of keywords from module) and each keyword K of the whole vocabulary that P has
+	// no field for, "P x { <what P requires> K x; }" must be refused.
+	type tinfo struct {
+		path []string // keywords from module down to this statement
+		t    reflect.Type
+	}
+	tagsOf := func(t reflect.Type) (kws map[string]reflect.Type, required []string) {
+		kws = map[string]reflect.Type{}
+		for i := 0; i < t.NumField(); i++ {
+			parts := strings.Split(t.Field(i).Tag.Get("yang"), ",")
+			tag := parts[0]
+			if tag == "" || tag == "Name" || tag == "Statement" || tag == "Parent" || tag == "Ext" {
+				continue
+			}
+			ft := t.Field(i).Type
+			if ft.Kind() == reflect.Slice {
+				ft = ft.Elem()
+			}
+			if ft.Kind() == reflect.Ptr && ft.Elem().Kind() == reflect.Struct {
+				kws[tag] = ft.Elem()
+			}
+			for _, p := range parts[1:] {
+				if p == "required" {
+					required = append(required, tag)
+				}
+			}
+		}
+		return
+	}
+	seen := map[reflect.Type]bool{}
+	vocab := map[string]bool{}
+	var types []tinfo
+	queue := []tinfo{{[]string{"module"}, reflect.TypeOf(Module{})}}
+	for len(queue) > 0 {
+		ti := queue[0]
+		queue = queue[1:]
+		if seen[ti.t] {
+			continue
+		}
+		seen[ti.t] = true
+		types = append(types, ti)
+		kws, _ := tagsOf(ti.t)
+		var names []string
+		for k := range kws {
+			names = append(names, k)
+		}
+		sortStringsC03(names)
+		for _, k := range names {
+			vocab[k] = true
+			queue = append(queue, tinfo{append(append([]string{}, ti.path...), k), kws[k]})
+		}
+	}
+	var words []string
+	for k := range vocab {
+		words = append(words, k)
+	}
+	sortStringsC03(words)
+	// mk writes the statement for a keyword chain with everything its nodes require
+	var mkReq func(t reflect.Type, depth int, skip string) string
+	mkReq = func(t reflect.Type, depth int, skip string) string {
+		kws, req := tagsOf(t)
+		var sb strings.Builder
+		for _, r := range req {
+			if depth > 6 || kws[r] == nil || r == skip {
+				continue
+			}
+			inner := mkReq(kws[r], depth+1, "")
+			if inner == "" {
+				fmt.Fprintf(&sb, " %s x;", r)
+			} else {
+				fmt.Fprintf(&sb, " %s x {%s }", r, inner)
+			}
+		}
+		return sb.String()
+	}
+	pairs := 0
+	for _, ti := range types {
+		if len(ti.path) < 2 || ti.path[1] == "belongs-to" {
+			continue // the module statement itself has the module / submodule special rules
+		}
+		own, _ := tagsOf(ti.t)
+		for _, k := range words {
+			if _, has := own[k]; has {
+				continue
+			}
+			// build the nesting: module m { ns; prefix; p1 x { req... p2 x { req ... K x; } } }
+			var open, closeB strings.Builder
+			t := reflect.TypeOf(Module{})
+			for i, kw := range ti.path[1:] {
+				kws, _ := tagsOf(t)
+				t = kws[kw]
+				next := ""
+				if i+2 < len(ti.path) {
+					next = ti.path[i+2] // the next statement of the chain is written anyway
+				}
+				fmt.Fprintf(&open, " %s x {%s", kw, mkReq(t, 0, next))
+				closeB.WriteString(" }")
+			}
+			text := "module m { namespace \"urn:m\"; prefix m;" + open.String() + " " + k + " x;" + closeB.String() + " }"
+			pairs++
+			ms := NewModules()
+			if err := ms.Parse(text, "ctx.yang"); err == nil {
+				fmt.Printf("GOVC-FAIL name=c03-rejection %s has no place for a %s statement, accepted: %s\n", strings.Join(ti.path, "/"), k, text)
+			}
+		}
+		// control: the wrapper alone is accepted (otherwise the rejections above prove nothing)
+		var open, closeB strings.Builder
+		t := reflect.TypeOf(Module{})
+		for i, kw := range ti.path[1:] {
+			kws, _ := tagsOf(t)
+			t = kws[kw]
+			next := ""
+			if i+2 < len(ti.path) {
+				next = ti.path[i+2]
+			}
+			fmt.Fprintf(&open, " %s x {%s", kw, mkReq(t, 0, next))
+			closeB.WriteString(" }")
+		}
+		text := "module m { namespace \"urn:m\"; prefix m;" + open.String() + closeB.String() + " }"
+		if err := NewModules().Parse(text, "ctx.yang"); err != nil {
+			fmt.Printf("GOVC-FAIL name=c03-rejection the wrapper for %s is itself refused (%v): %s\n", strings.Join(ti.path, "/"), err, text)
+		}
+	}
+	evals += pairs
+	fmt.Printf("GOVC-BOUNDED name=c03-ast-mirrors-statements bound=%d_generated_module_sets_(every_node_of_every_module_and_submodule_walked,_seed_%d)_+_%d_single-fault_texts_+_%d_(statement,_foreign_keyword)_pairs_over_%d_statement_types evaluations=%d distinct=%d\n", schemas, seed, len(faults), pairs, len(types), evals, nodes)
+}
+
+func sortStringsC03(s []string) {
+	for i := 1; i < len(s); i++ {
+		for j := i; j > 0 && s[j] < s[j-1]; j-- {
+			s[j], s[j-1] = s[j-1], s[j]
+		}
+	}
 }
